@@ -295,10 +295,10 @@ func (w *wIntent) yamlWithCache(e *wEnv, cache string) string {
 	b.WriteString(`ratelimit:
     refuseany: false
     response_size_estimate: 1KB
-    ipv4: {count: 100000000, interval: 10s, subnet_key_len: 24}
-    ipv6: {count: 100000000, interval: 10s, subnet_key_len: 48}
+    ipv4: {count: 100000, interval: 10s, subnet_key_len: 24}
+    ipv6: {count: 100000, interval: 10s, subnet_key_len: 48}
     backoff_period: 10m
-    backoff_count: 100000000
+    backoff_count: 100000
     backoff_duration: 30m
     allowlist: {list: [], refresh_interval: 1h, type: 'consul'}
     connection_limit: {enabled: false, stop: 1000, resume: 800}
